@@ -8,8 +8,11 @@ import common as C
 import gen as G
 
 LEVEL = "proof"
-TRUSTED = ["models: coq/Model/Iset.v (inter_go, diff_go, union_go, union_n_go); theorems: InterDiffProofs.v, UnionProofs.v, C02Top.v"]
-ASSUMPTIONS = ["operands are canonical IntervalSets (C01)", "comparison/min/max-only kernels: behaviour is a function of the order type of the endpoints"]
+TRUSTED = ["models: coq/Model/Iset.v (inter_go, diff_go, union_go, union_n_go); theorems: InterDiffProofs.v, UnionProofs.v, C02Top.v, MeasureProofs.v; "
+           "the public-result (wrapper) forms of the endpoint, commutativity, idempotence and duration clauses are proved in Properties/C02.v itself"]
+ASSUMPTIONS = ["operands are canonical IntervalSets (C01)", "comparison/min/max-only kernels: behaviour is a function of the order type of the endpoints",
+               "float_ambiguous counts ONLY the public-result interval [p - 1us, p - 1e-6] left by the constructor's un-rounded trim of an exactly 1us long interval "
+               "whose end p touches a start of the other operand (zero-length on the ns grid, ~1e-22 s as floats); it is dropped before the comparison"]
 
 
 def _nap():
@@ -21,13 +24,21 @@ def _nap():
 AMB = [0]
 
 
-def tk(st, en):
-    """ticks of an interval list; an interval that is proper as floats but shorter than 0.5 ns (artefact of the
-    un-rounded 1e-6 trim) is float_ambiguous: dropped and counted"""
+def junctions(A, B):
+    """the instants where an interval of one operand ends exactly where an interval of the other starts"""
+    return (set(e for _, e in A) & set(s for s, _ in B)) | (set(e for _, e in B) & set(s for s, _ in A))
+
+
+def tk(st, en, trims=()):
+    """ticks of an interval list.  The constructor trims an end p that touches the next start to the float p - 1e-6, which is
+    not rounded to ns; when the trimmed interval was exactly 1 us long, [p - 1us, p - 1e-6] stays proper as floats (a few
+    1e-22 s long) while it is the zero-length [p - 1us, p - 1us] on ticks.  That interval, and nothing else, is float_ambiguous
+    (dropped and counted): `trims` are the instants p at which a trim can happen.  Raw kernel outputs are never trimmed (trims = ());
+    any other interval that is zero-length on ticks is kept and fails the checks."""
     out = []
     for s, e in zip(st, en):
         a, b = C.to_ns(s), C.to_ns(e)
-        if a == b and s < e:
+        if a == b and s < e and a + 1000 in trims:
             AMB[0] += 1
             continue
         out.append((a, b))
@@ -52,17 +63,23 @@ def probes(A, B):
 
 
 def oracle_pub(name, A, B, R, res, inp):
+    junc = junctions(A, B)
     for x in probes(A, B):
         a, b, r = G.mem(x, A), G.mem(x, B), G.mem(x, R)
         want = (a or b) if name == "union" else (a and b) if name == "intersect" else (a and not b)
         if r != want:
-            res.violations.append({"key": {"op": name, "part": "membership"}, "what": "%s is not the Boolean operation at an instant farther than 1us from every endpoint" % name,
+            res.violations.append({"key": {"op": name, "part": "membership", "operands_touch": bool(junc)},
+                                   "what": "%s is not the Boolean operation at an instant farther than 1us from every endpoint" % name,
                                    "input": inp, "x": x, "impl": R})
             return False
+    # every start of the result is a start or an end of an operand; every end is an endpoint of an operand, or the instant of a
+    # touch (end of one operand = start of the other: the only place where the 1 us touch-separation acts) minus 1 us
     eps = set(x for iv in A + B for x in iv)
     for s, e in R:
-        if not (s in eps or s + 1000 in eps) or not (e in eps or e + 1000 in eps):
-            res.violations.append({"key": {"op": name, "part": "endpoints"}, "what": "an endpoint of the result is not an endpoint of an operand (or that minus 1us)",
+        if s not in eps or not (e in eps or e + 1000 in junc):
+            res.violations.append({"key": {"op": name, "part": "endpoints", "start_is_operand_endpoint": s in eps,
+                                           "end_is_operand_endpoint_minus_1us": e + 1000 in eps, "operands_touch": bool(junc)},
+                                   "what": "an endpoint of the result is not an endpoint of an operand (nor a touch instant minus 1us)",
                                    "input": inp, "impl": R})
             return False
     return True
@@ -79,12 +96,19 @@ def run(res, tier, seed):
     rng = random.Random(seed * 31 + 5)
     res.rule = ("kernels: ALL ordered pairs of canonical sets with <=3(4) intervals on an %d-point lattice [complete over endpoint order types incl. shared starts/ends, "
                 "end==start touches, nested, identical, empty] compared with the extracted models (incl. parent indices) and with the point-membership oracle; "
-                "public union/intersect/set_diff: same pairs (subsample in quick) + algebra + durations; TsGroup supports for 1,2,>=3 members. "
+                "+ a sample of the same pairs on a 1us-step lattice (1us/2us intervals and gaps) + seeded random larger pairs with 1ns..1us gaps and coinciding endpoints; "
+                "public union/intersect/set_diff: same pairs (every 4th(3rd)): membership at far instants, endpoints (starts exact, ends exact or touch instant - 1us), "
+                "commutativity and idempotence at list level, durations exact up to 1us per touch instant; TsGroup supports for 1,2,>=3 members incl. empty members. "
                 "non-trivial = both non-empty; distinct = distinct (A,B)" % N)
     res.exhaustive = True
     pairs = [(A, B) for A in S for B in S]
     if tier == "quick":
-        pairs = rng.sample(pairs, 6000) + [(A, A) for A in S] + [(A, []) for A in S] + [([], A) for A in S]
+        pairs = rng.sample(pairs, 5000) + [(A, A) for A in S] + [(A, []) for A in S] + [([], A) for A in S]
+    # the same order types on a 1us lattice: intervals and gaps of exactly 1us / 2us, so that the constructor's 1us trim at a touch
+    # empties an interval or meets the previous endpoint (no far instant between neighbouring points there: these pairs exercise
+    # the endpoint, algebra, duration and model-agreement checks)
+    S1 = [[(s // 4, e // 4) for s, e in A] for A in S]
+    pairs += rng.sample([(A, B) for A in S1 for B in S1], 1500 if tier == "quick" else 20000)
     # + random larger
     for _ in range(300 if tier == "quick" else 5000):
         A = G.rand_canonical_iset(rng, 7)
@@ -156,36 +180,49 @@ def run(res, tier, seed):
         a = nap.IntervalSet(s1, e1)
         b = nap.IntervalSet(s2, e2)
         pu, pi, pd_ = a.union(b), a.intersect(b), a.set_diff(b)
-        Ru, Ri, Rd = tk(pu.start, pu.end), tk(pi.start, pi.end), tk(pd_.start, pd_.end)
+        junc = junctions(A, B)
+        Ru, Ri, Rd = tk(pu.start, pu.end, junc), tk(pi.start, pi.end, junc), tk(pd_.start, pd_.end, junc)
         res.evaluations += 3
         for name, R, k in (("union", Ru, 5), ("intersect", Ri, 3), ("set_diff", Rd, 4)):
             oracle_pub(name, A, B, R, res, inp)
             if R != parse_iset(o[k]):
                 res.disagreements.append({"op": name, "input": inp, "impl": R, "model": o[k]})
         # commutativity, idempotence, durations (up to 1us per junction)
-        if tk(*(lambda r: (r.start, r.end))(b.union(a))) != Ru or tk(*(lambda r: (r.start, r.end))(b.intersect(a))) != Ri:
-            res.violations.append({"key": {"op": "commutativity"}, "what": "union/intersect not commutative", "input": inp})
+        for name, R, R2 in (("union", Ru, b.union(a)), ("intersect", Ri, b.intersect(a))):
+            if tk(R2.start, R2.end, junc) != R:
+                res.violations.append({"key": {"op": "commutativity", "part": name, "operands_touch": bool(junc)},
+                                       "what": "%s is not commutative" % name, "input": inp, "impl": [R, tk(R2.start, R2.end, junc)]})
+        # a junction is an instant where one operand ends and the other starts: the only place where 1us can go missing
         L = lambda R: sum(e - s for s, e in R)
-        J_ = len(A) + len(B)
-        if abs(L(Ru) + L(Ri) - L(A) - L(B)) > 1000 * J_ or abs(L(Rd) - (L(A) - L(Ri))) > 1000 * J_:
-            res.violations.append({"key": {"op": "durations"}, "what": "duration identities violated by more than 1us per junction", "input": inp,
-                                   "impl": {"union": Ru, "inter": Ri, "diff": Rd}})
+        tol = 1000 * len(junc)
+        res.count("touch_instants=%d" % min(len(junc), 3))
+        if abs(L(Ru) + L(Ri) - L(A) - L(B)) > tol:
+            res.violations.append({"key": {"op": "durations", "part": "union_identity", "operands_touch": bool(junc)},
+                                   "what": "|A union B| + |A intersect B| differs from |A| + |B| by more than 1us per touch instant", "input": inp,
+                                   "impl": {"union": Ru, "inter": Ri}, "off_by_ns": L(Ru) + L(Ri) - L(A) - L(B), "touch_instants": len(junc)})
+        if abs(L(Rd) - (L(A) - L(Ri))) > tol:
+            res.violations.append({"key": {"op": "durations", "part": "diff_identity", "operands_touch": bool(junc)},
+                                   "what": "|A set_diff B| differs from |A| - |A intersect B| by more than 1us per touch instant", "input": inp,
+                                   "impl": {"inter": Ri, "diff": Rd}, "off_by_ns": L(Rd) - (L(A) - L(Ri)), "touch_instants": len(junc)})
         if n < 2 or n % 3001 == 0:
             res.sample({"A": A, "B": B, "union": Ru, "intersect": Ri, "set_diff": Rd})
     res.float_ambiguous = AMB[0]
     # idempotence / absorbing, n-ary union via TsGroup supports
-    sub = S if tier == "thorough" else rng.sample(S, 60)
+    sub = S + S1 if tier == "thorough" else rng.sample(S, 45) + rng.sample(S1, 15)
     lines = []
     trip = []
     for A in sub:
         a = nap.IntervalSet(G.arr([s for s, _ in A]), G.arr([e for _, e in A]))
         res.evaluations += 1
         e0 = nap.IntervalSet([], [])
-        if tk(a.union(a).start, a.union(a).end) != A or tk(a.intersect(a).start, a.intersect(a).end) != A or len(a.set_diff(a)) != 0 \
-           or tk(a.union(e0).start, a.union(e0).end) != A or len(a.intersect(e0)) != 0 or tk(a.set_diff(e0).start, a.set_diff(e0).end) != A:
-            res.violations.append({"key": {"op": "idempotence"}, "what": "A op A / A op empty wrong", "input": {"A": A}})
+        for part, R, want in (("A union A", a.union(a), A), ("A intersect A", a.intersect(a), A), ("A set_diff A", a.set_diff(a), []),
+                              ("A union empty", a.union(e0), A), ("empty union A", e0.union(a), A), ("A intersect empty", a.intersect(e0), []),
+                              ("empty intersect A", e0.intersect(a), []), ("A set_diff empty", a.set_diff(e0), A), ("empty set_diff A", e0.set_diff(a), [])):
+            if tk(R.start, R.end) != want:
+                res.violations.append({"key": {"op": "idempotence", "part": part}, "what": "%s is not %s" % (part, "A" if want else "empty"),
+                                       "input": {"A": A}, "impl": tk(R.start, R.end)})
         for _ in range(2):
-            Bs = [rng.choice(S) for _ in range(rng.randint(1, 3))]
+            Bs = [rng.choice(S) if rng.random() > 0.2 else [] for _ in range(rng.randint(1, 3))]
             allsets = [A] + Bs
             flat = [iv for X in allsets for iv in X]
             if not flat:
@@ -207,10 +244,9 @@ def run(res, tier, seed):
         # TsGroup time support = union of member supports
         members = {}
         for k, X in enumerate(allsets):
-            if not X:
-                continue
             sup = nap.IntervalSet(G.arr([s for s, _ in X]), G.arr([e for _, e in X]))
-            members[k] = nap.Ts(G.arr([X[0][0]]), time_support=sup)
+            members[k] = nap.Ts(G.arr([X[0][0]] if X else []), time_support=sup)     # X = []: a member with an empty support
+            res.count("group_member_with_empty_support", int(not X))
         if members:
             g = nap.TsGroup(members)
             Rg = tk(g.time_support.start, g.time_support.end)
@@ -239,7 +275,7 @@ def replay(payload):
     b = nap.IntervalSet(G.arr([s for s, _ in B]), G.arr([e for _, e in B]))
     r = C.Result()
     for name, R in (("union", a.union(b)), ("intersect", a.intersect(b)), ("set_diff", a.set_diff(b))):
-        Rt = tk(R.start, R.end)
+        Rt = tk(R.start, R.end, junctions(A, B))
         print(name, "A=%s B=%s ->" % (A, B), Rt)
         oracle_pub(name, A, B, Rt, r, inp)
     print("violations:", r.violations)
